@@ -7,6 +7,7 @@ import time
 
 import h5vlib as H
 from props.c01 import random_big, many_chunks
+from props.logical import neighbour_cases
 
 LEVEL = "exploration"
 ASSUME = ["harness/indep is an independent decoder written from the HDF5 File Format Specification 3.0; before it judges library files it is run over "
@@ -94,6 +95,7 @@ def run(ctx):
                        {"op": "mkds", "p": "/e", "dt": "i32", "dims": [2]}, {"op": "write", "p": "/e", "data": "seq"}]
                 cases.append({"cfg": {"sb": sb, "rb": "", "style": 0, "tag": "C05-types"}, "ops": ops})
     cases += many_chunks() + random_big(ctx, 3000 if thorough else 400)
+    cases += neighbour_cases("C05-neighbours", False) + neighbour_cases("C05-neighbours-sessions", True)
     path = ctx.write_cases(cases)
     trace, dout = ctx.drive("ops", path, env={"H5V_VIEW": "indep", "H5V_IOLOG": "1"})
     H.log(dout.strip())
